@@ -117,7 +117,7 @@ def mutate(rng, root):
     """Apply one point mutation somewhere in the tree `root` (in place).  Returns a description or None."""
     nodes = real_nodes(root)
     rng.shuffle(nodes)
-    kinds_pref = rng.choice(["numeric", "numeric", "key", "trailing", "child", "content"])
+    kinds_pref = rng.choice(["numeric", "numeric", "key", "key", "trailing", "child", "content"])
     for path, n in nodes:
         k = probes.base_kind(n)
         if kinds_pref == "numeric":
@@ -129,6 +129,9 @@ def mutate(rng, root):
         if kinds_pref == "key":
             if k in ("SparselyBin", "Categorize") and n.bins:
                 key = rng.choice(list(n.bins))
+                special = [x for x in n.bins if (k == "SparselyBin" and abs(x) >= 2**62) or (k == "Categorize" and str(x) in ("NaN", "nan", "None", ""))]
+                if special and rng.random() < 0.5:
+                    key = rng.choice(special)
                 how = rng.choice(["remove", "rename", "add"])
                 if how == "remove":
                     del n.bins[key]
@@ -141,7 +144,10 @@ def mutate(rng, root):
                 return "%s bin key %s %r at %s" % (k, how, key, path)
             if k == "Bag" and n.values:
                 key = rng.choice(list(n.values))
-                how = rng.choice(["remove", "weight", "add"])
+                special = [x for x in n.values if x == "nan" or (isinstance(x, float) and (x != x or x in (float("inf"), float("-inf")))) or (isinstance(x, tuple) and any(isinstance(e, str) or e != e for e in x))]
+                if special and rng.random() < 0.6:
+                    key = rng.choice(special)  # the NaN / infinite keys have code of their own in __eq__
+                how = rng.choice(["remove", "weight", "weight", "add"])
                 if how == "remove":
                     del n.values[key]
                 elif how == "weight":
@@ -223,6 +229,14 @@ def run_case(i, rng, tier):
             hist.append(step)
         except Exception:  # noqa: BLE001
             break
+    built = None
+    if i % 12 == 5:
+        # a state assembled by the alternative constructors from filled trees (NaN thresholds for Stack.build)
+        built = rng.choice(["stack", "stack", "fraction"])
+        bstreams = [stream] + [S.gen_stream(rng, sp, rng.randint(0, 4)) for _ in range(rng.randint(1, 2))]
+        a = C.built_state(sp, bstreams, built)
+        hist = ["build:" + built]
+        counters["built:" + built] = 1
     counters["state_history:" + ("+".join(hist) if hist else "fills")] = 1
     wit["state_history"] = hist
     if clone_kind == "copy":
@@ -233,7 +247,9 @@ def run_case(i, rng, tier):
         a = a.toImmutable()
         b = Factory.fromJson(json.loads(json.dumps(a.toJson())))
     else:
-        if hist:
+        if built:
+            b = C.built_state(sp, bstreams, built)  # assembled again from scratch: shares no object with a
+        elif hist:
             b = a.copy()  # "rebuild" only makes sense for states reached by fills alone
         else:
             b = C.fill_all(S.build(sp), stream)
@@ -323,7 +339,7 @@ def run_case(i, rng, tier):
 
 def conclusive(agg):
     out = []
-    for c in ("clone:copy", "clone:pickle", "clone:immutable", "clone:rebuild", "equal_pairs", "unequal_pairs", "comparisons:tolerance"):
+    for c in ("clone:copy", "clone:pickle", "clone:immutable", "clone:rebuild", "built:stack", "built:fraction", "equal_pairs", "unequal_pairs", "comparisons:tolerance"):
         if not agg.counters.get(c):
             out.append("never exercised: " + c)
     miss = [k for k in S.ALL_KINDS if k not in agg.sets.get("kinds", ())]
